@@ -73,6 +73,8 @@ type env struct {
 	mu       sync.Mutex
 	extra    []api.EntityLocalInterface
 	handlers []*world.EventLog
+	// counters of requests for which the application waits with a response callback, per connection
+	awaited map[string][]model.MsgCounterType
 }
 
 var peerTree = []world.EntSpec{
@@ -143,9 +145,9 @@ type op struct {
 
 var requestSerial atomic.Uint64
 
-var inboundKinds = []string{"read", "read-discovery", "read-usecase", "notify", "reply", "write", "write-approval", "subscribe", "unsubscribe", "bind", "unbind", "result", "entity-removed", "entity-added"}
+var inboundKinds = []string{"read", "read-discovery", "read-usecase", "notify", "reply", "reply-awaited", "reply-awaited", "write", "write-approval", "subscribe", "unsubscribe", "bind", "unbind", "result", "entity-removed", "entity-added"}
 var localKinds = []string{"setdata", "updatedata", "datacopy-encode", "usecase-add", "usecase-remove", "usecase-avail", "add-entity", "remove-entity", "getoradd", "addfunction",
-	"subscribe-remote", "bind-remote", "request-remote", "request-burst", "heartbeat-start", "heartbeat-stop", "heartbeat-running", "event-subscribe", "event-unsubscribe", "lookup-notify",
+	"subscribe-remote", "bind-remote", "request-remote", "request-awaited", "request-awaited", "request-burst", "heartbeat-start", "heartbeat-stop", "heartbeat-running", "event-subscribe", "event-unsubscribe", "lookup-notify",
 	"describe", "registry-read", "remote-tree-read", "reconnect"}
 
 func genList(t *rapid.T, f *gen.Func, label string) *model.CmdType {
@@ -160,7 +162,7 @@ func genOps(t *rapid.T, kinds []string, n int, label string) []op {
 	for i := 0; i < n; i++ {
 		o := op{Kind: rapid.SampledFrom(kinds).Draw(t, fmt.Sprintf("%s.%d", label, i)), A: rapid.IntRange(0, 3).Draw(t, fmt.Sprintf("%s.%d.a", label, i)), B: rapid.IntRange(0, 3).Draw(t, fmt.Sprintf("%s.%d.b", label, i))}
 		switch o.Kind {
-		case "notify", "reply", "write", "updatedata", "setdata":
+		case "notify", "reply", "reply-awaited", "write", "updatedata", "setdata":
 			o.Cmd = genList(t, gen.ByFunction(model.FunctionTypeMeasurementListData), fmt.Sprintf("%s.%d", label, i))
 		case "write-approval":
 			o.Cmd = genList(t, gen.ByFunction(model.FunctionTypeLoadControlLimitListData), fmt.Sprintf("%s.%d", label, i))
@@ -191,6 +193,18 @@ func (e *env) inbound(p *world.Peer, o op) {
 		send(model.CmdClassifierTypeNotify, p.FA([]uint{1}, 3), e.cli.Address(), o.A == 0, nil, *o.Cmd)
 	case "reply":
 		send(model.CmdClassifierTypeReply, p.FA([]uint{1}, 3), e.cli.Address(), false, p.DiscoveryRef, *o.Cmd)
+	case "reply-awaited":
+		// the answer to a request the application is waiting for with a response callback (if there
+		// is none at the moment: a stray reply)
+		ref := p.DiscoveryRef
+		e.mu.Lock()
+		if l := e.awaited[p.Ski]; len(l) > 0 {
+			c := l[0]
+			ref = &c
+			e.awaited[p.Ski] = l[1:]
+		}
+		e.mu.Unlock()
+		send(model.CmdClassifierTypeReply, p.FA([]uint{1}, 3), e.cli.Address(), false, ref, *o.Cmd)
 	case "write":
 		send(model.CmdClassifierTypeWrite, p.FA([]uint{1}, 1), e.meas.Address(), true, nil, *o.Cmd)
 	case "write-approval":
@@ -280,6 +294,20 @@ func (e *env) local(o op, peers []*world.Peer) {
 	case "request-remote":
 		if rf := p.Feature([]uint{1}, 3); rf != nil {
 			_, _ = e.cli.RequestRemoteData(mf.Fn, nil, nil, rf)
+		}
+	case "request-awaited":
+		// a request whose answer the application wants to be told about
+		if rf := p.Feature([]uint{1}, 3); rf != nil {
+			id := model.MeasurementIdType(requestSerial.Add(1))
+			if ctr, err := e.cli.RequestRemoteData(mf.Fn, &model.MeasurementListDataSelectorsType{MeasurementId: &id}, nil, rf); err == nil && ctr != nil {
+				_ = e.cli.AddResponseCallback(*ctr, func(api.ResponseMessage) {})
+				e.mu.Lock()
+				if e.awaited == nil {
+					e.awaited = map[string][]model.MsgCounterType{}
+				}
+				e.awaited[p.Ski] = append(e.awaited[p.Ski], *ctr)
+				e.mu.Unlock()
+			}
 		}
 	case "request-burst":
 		// more different unanswered requests than the sender remembers (20): the oldest are evicted
